@@ -25,6 +25,7 @@ func cmdSelftest(args []string) int {
 		{"SelfFloat", "ASSERT:int-to-float-injective", ""},
 		{"SelfIndex", "PANIC:", ""},
 		{"SelfStrings", "", "R:done"},
+		{"SelfSyncMap", "", "R:done"},
 	}
 	fail := 0
 	for _, c := range cases {
